@@ -160,8 +160,8 @@ func seedVariants(prop, verif string) []variant {
 		if json.Unmarshal(mb, &meta) != nil {
 			continue
 		}
-		if st, ok := meta["status"].(string); ok && strings.HasPrefix(st, "superseded") {
-			continue
+		if st, ok := meta["status"].(string); ok && (strings.HasPrefix(st, "superseded") || strings.HasPrefix(st, "not-reported")) {
+			continue // documented in DESIGN.md: fixed in /repo since, or a seed no rule is armed for (with the reason)
 		}
 		pf := filepath.Join(d, "patch.diff")
 		if _, err := os.Stat(pf); err != nil {
